@@ -428,6 +428,9 @@ def run(R):
                     R.disagree("real accessor vs in-memory route (level data)", {**case, "level": li}, None, None)
                     break
 
+    # ---------------------------------------------------------- (c2) fixed infos with an unprocessable transition
+    _unprocessable_pyramids_stream(R, rng, quick)
+
     # ---------------------------------------------------------- read_chunk: validation / missing chunk classes
     size, cs = [7, 5, 3], [4, 2, 2]
     rinfo = pc.two_scale_info(size, size, cs, cs)
@@ -661,6 +664,73 @@ def _special_float_stream(R, rng, quick):
             prev = got
 
 
+def _unprocessable_pyramids_stream(R, rng, quick):
+    """Deterministic (not drawn): generator outputs that contain a transition compute_dyadic_downscaling
+    rejects - broadcast ValueError, "Unsupported combination of chunk sizes" ValueError, ZeroDivisionError
+    (the open C08 regions) - plus one processable control, each ALWAYS run through the real compute-scales
+    command (scripts.compute_scales.main on a dataset on disk) AND through the library function
+    (compute_dyadic_scales on an accessor-backed PrecomputedIO).  Oracle, the last sentence of the property:
+    a non-zero status / an exception, or a complete pyramid in which every scale is the previous one
+    downscaled once.  Status 0 with a missing or wrong scale is a violation."""
+    from neuroglancer_scripts import accessor, dyadic_pyramid as dp, precomputed_io
+    from neuroglancer_scripts.scripts import compute_scales
+    fixed = [([40, 40, 40], [1000, 4000, 16000], 4, "average"),     # third transition: ValueError
+             ([40, 40, 40], [1000, 4000, 16000], 4, "stride"),
+             ([3, 33, 3], [1, 3, 6], 4, "majority"),                 # first transition: could not broadcast
+             ([65, 5, 1], [1, 8, 32], 4, "average"),                 # last transition: unsupported chunk sizes
+             ([65, 5, 1], [1, 8, 32], 4, "stride"),
+             ([3, 3, 3], [1, 1, 4], 1, "stride"),                    # first transition: ZeroDivisionError
+             ([17, 6, 12], [1, 4, 2], 2, "average"),                 # mixed
+             ([33, 20, 9], [1, 1, 1], 8, "average")]                 # control: processable
+    for k, (size, res, target, method) in enumerate(fixed):
+        info = pc.base_info(size, res)
+        dp.fill_scales_for_dyadic_pyramid(info, target_chunk_size=target)
+        keys = [sc["key"] for sc in info["scales"]]
+        vol = rand_vol(rng, (1, size[2], size[1], size[0]), "uint8", method)
+        geoms = geoms_of(info)
+        predicted = [pc.py_geom_class(*g) for g in geoms]
+        for route in ("command", "library"):
+            d = os.path.join(R.tmp, f"unproc{k}-{route}")
+            acc = accessor.get_accessor_for_url(d)
+            io = precomputed_io.get_IO_for_new_dataset(copy.deepcopy(info), acc)
+            write_level0(io, info, vol)
+            case = {"fixed_unprocessable": True, "route": route, "size": size, "resolution": res, "target": target,
+                    "method": method, "predicted_transitions": predicted}
+            R.case(case, nontrivial=True)
+            with pc.poisoned(0xFF):
+                if route == "command":
+                    out = pc.outcome_bc(lambda: compute_scales.main(["compute-scales", d, "--downscaling-method", method]))
+                    ok = out[0] == "ok" and not out[1]
+                else:
+                    out = pc.outcome_bc(lambda: dp.compute_dyadic_scales(
+                        precomputed_io.get_IO_for_existing_dataset(accessor.get_accessor_for_url(d)), pc.get_ds(method)))
+                    ok = out[0] == "ok"
+            R.count(f"fixed-unprocessable:{route}:" + ("status0" if ok else (out[-1] if out[0] != "ok" else f"rc{out[1]}")))
+            if len(set(keys)) != len(keys):
+                continue
+            if not ok:
+                if all(c == "exact" for c in predicted):
+                    R.violation("a processable pyramid was refused", case, out[:2])
+                continue
+            # status 0: the pyramid has to be complete and right
+            rd = precomputed_io.get_IO_for_existing_dataset(accessor.get_accessor_for_url(d))
+            prev = vol
+            for li in range(1, len(info["scales"])):
+                got, err = read_level(rd, info, li)
+                f3 = [pc.py_axis_f(a, b) for a, b in zip(info["scales"][li - 1]["size"], info["scales"][li]["size"])]
+                want = pc.ref_downscale(prev, f3, method)
+                if got is None:
+                    R.violation("compute-scales reported success (status 0 / no exception) but a scale of the pyramid "
+                                "is missing: an unprocessable pair of scales must fail with an error", {**case, "level": li},
+                                {"read_back": err})
+                    break
+                if got.shape != want.shape or not np.array_equal(got, want):
+                    R.violation("compute-scales reported success but a scale differs from the previous scale "
+                                "downscaled once", {**case, "level": li}, {})
+                    break
+                prev = got
+
+
 def _whole_level_oracle(R, rng, quick):
     """The property, literally: after the real commands ran, every scale must equal the selected
     downscaling method applied to the ENTIRE previous scale as one array (the package's own downscaler
@@ -814,6 +884,12 @@ def _damage_one_source_chunk(rng, out, how):
 
 def replay(R, payload):
     case = payload.get("case", {})
+    if case.get("fixed_unprocessable"):
+        import logging
+        logging.disable(logging.CRITICAL)
+        _unprocessable_pyramids_stream(R, R.rng, True)
+        logging.disable(logging.NOTSET)
+        return bool(R.violations)
     if "special_floats" in case:
         import logging
         logging.disable(logging.CRITICAL)
